@@ -160,6 +160,21 @@ def finish(ctx: Ctx, rule="R-C03-FINISH") -> None:
     inmem_consume_rules(ctx, rule_t="R-C01-TRANSFER", rule_a="R-C01-ATOMIC")
 
 
+def graceful_budget(ctx: Ctx, rule: str) -> None:
+    """Executions in flight when the worker stops get the worker's graceful_shutdown_time to finish (not some other, shorter budget)."""
+    w = ctx.func(f"{C.WORKER}._run") if f"{C.WORKER}._run" in ctx.prog.functions else ctx.func(f"{C.WORKER}.run")
+    fg = [c for c in ast.walk(w.node) if isinstance(c, ast.Call) and (dotted(c.func) or "").endswith("finish_gracefully")]
+    got = C.utext(w, C.kw(fg[0], "timeout") or (fg[0].args[0] if fg[0].args else None)) if len(fg) == 1 else None
+    ctx.check(got == "self.graceful_shutdown_time", rule, w, "finish_gracefully(timeout=graceful_shutdown_time)", "bounded by the graceful period",
+              f"Worker.run gives the executions in flight {got or 'no explicit budget'} instead of the worker's graceful_shutdown_time to finish: an execution that was started "
+              "(and counted) is cancelled and its message returned although it would have finished within the configured graceful period", node=fg[0] if fg else None,
+              instance="graceful timeout")
+    init = ctx.func(f"{C.WORKER}.__init__")
+    st = [a for a in ast.walk(init.node) if isinstance(a, ast.Assign) and any(dotted(t) == "self.graceful_shutdown_time" for t in a.targets)]
+    ctx.check(len(st) == 1 and dotted(st[0].value) == "graceful_shutdown_time", rule, init, "Worker keeps its graceful_shutdown_time argument", "self.graceful_shutdown_time = graceful_shutdown_time",
+              f"Worker.__init__ stores {unparse(st[0].value) if st else 'nothing'} as graceful_shutdown_time", instance="graceful time stored")
+
+
 def shutdown(ctx: Ctx, rule="R-C03-SHUTDOWN") -> None:
     w = ctx.func(f"{C.WORKER}._run") if f"{C.WORKER}._run" in ctx.prog.functions else ctx.func(f"{C.WORKER}.run")
     g = ctx.cfg(w)
@@ -202,9 +217,7 @@ def shutdown(ctx: Ctx, rule="R-C03-SHUTDOWN") -> None:
     bad = sorted(t for t in trs if not well_ordered(t))
     ctx.check(bool(trs) and not bad and bool(cons_names), rule, w, "shutdown sequence of Worker.run", " -> ".join(order),
               f"Worker.run's normal paths include {bad[:2]} instead of consumers -> finish_gracefully -> finish() of every consumer -> unregister signals", instance="shutdown order")
-    fg = [c for c in ast.walk(w.node) if isinstance(c, ast.Call) and (dotted(c.func) or "").endswith("finish_gracefully")]
-    ok = len(fg) == 1 and dotted(C.kw(fg[0], "timeout") or (fg[0].args[0] if fg[0].args else None)) == "self.graceful_shutdown_time"
-    ctx.check(ok, rule, w, "finish_gracefully(timeout=graceful_shutdown_time)", "bounded by the graceful period", "finish_gracefully is not bounded by the worker's graceful_shutdown_time", instance="graceful timeout")
+    graceful_budget(ctx, rule)
     wf = [c for c in ast.walk(w.node) if isinstance(c, ast.Call) and (dotted(c.func) or "").endswith("wait_for") and "finish()" in unparse(c)]
     ok = len(wf) == 1 and dotted(C.kw(wf[0], "timeout")) == "self.graceful_consumer_finish_time" and any(
         dotted(it) in cons_names and any(isinstance(x, ast.Call) and isinstance(x.func, ast.Attribute) and x.func.attr == "finish" for b in body for x in ast.walk(b))
